@@ -9,6 +9,7 @@ import z3
 from pyvc import sym, instrument, vc as vcm
 from pyvc.arr import check_same
 from pyvc.harness import Unit
+from pyvc import harness as _h
 from pyvc.sym import SB, check, explore
 from checks import runner_common as rc, update_common as uc
 
@@ -123,6 +124,11 @@ def run_seed(mutate=None):
     return dict(obls=obls, paths=n, sources=[L.info()], consistent=True)
 
 
+
+def _bounded_quick():
+    return native(0)
+
+
 def units():
     U = "tdgl.solver.solver:TDGLSolver.update"
     return [Unit("update[no screening, static A]", U, _upd(False, False), props=["C11"], timeout=900),
@@ -130,7 +136,8 @@ def units():
             Unit("update[screening, static A]", U, _upd(True, False), props=["C11"], timeout=900),
             Unit("_run_stage[save]", "tdgl.solver.runner:Runner._run_stage", lambda m=None: rc.run_stage(m, True, None, prefixes=P), props=["C11"], timeout=900),
             Unit("get_induced_vector_potential", "tdgl.solver.solver:TDGLSolver.get_induced_vector_potential", lambda m=None: _polyak(m), props=["C11"], timeout=600),
-            Unit("solve[seed]", "tdgl.solver.solver:TDGLSolver.solve", run_seed, props=["C11"], timeout=300)]
+            Unit("solve[seed]", "tdgl.solver.solver:TDGLSolver.solve", run_seed, props=["C11"], timeout=300),
+            _h.bounded_unit("recording independence and resume of real runs [bounded]", "tdgl.solve (real runs, bitwise)", "C11", _bounded_quick, "frames_independent_of_recording_and_resume_bit_exact[11 runs]", timeout=900)]
 
 
 def native(seed=0):
